@@ -137,11 +137,11 @@ c = R.contract(
     ensures=[
         wrote_iff(GATE),
         # C11: a line write ends in exactly the newline that was asked for
-        "[C11] implies(%s and new_line, %s.endswith('\\n'))" % (GATE, LAST),
+        "[C11,C15] implies(%s and new_line, %s.endswith('\\n'))" % (GATE, LAST),
         # C11: undecorated output goes through remove_format, decorated through format (when not indented)
-        "[C11] implies(%s and not (self._indent > 0 and with_indent) and self._format_output, "
+        "[C11,C15] implies(%s and not (self._indent > 0 and with_indent) and self._format_output, "
         "%s == fmt_format(self._formatter, string) + ('\\n' if new_line else ''))" % (GATE, LAST),
-        "[C11] implies(%s and not (self._indent > 0 and with_indent) and not self._format_output, "
+        "[C11,C15] implies(%s and not (self._indent > 0 and with_indent) and not self._format_output, "
         "%s == fmt_remove(self._formatter, string) + ('\\n' if new_line else ''))" % (GATE, LAST),
     ],
     modifies=STREAM_GHOST,
@@ -271,6 +271,12 @@ c = R.contract(
         "implies(%s, self._stream.g_count > old(self._stream.g_count))" % GATE,
         # C11/C15: without ANSI the section degrades to a plain write of the same kind
         "[C11,C15] implies(%s and not %s and new_line, self._stream.g_last.endswith('\\n'))" % (GATE, ANSI),
+        # C15: ... to ONE plain appended write: no cursor control (a control sequence is a write of its own), no
+        # accounting, and the undecorated text of the message itself
+        "[C15] implies(%s and not %s, self._stream.g_count == old(self._stream.g_count) + 1 and "
+        "self._lines == old(self._lines) and seq(self._content) == old(seq(self._content)))" % (GATE, ANSI),
+        "[C15] implies(%s and not %s and not (self._indent > 0 and with_indent), "
+        "self._stream.g_last == fmt_remove(self._formatter, string) + ('\\n' if new_line else ''))" % (GATE, ANSI),
     ],
     modifies=STREAM_GHOST + ["self._lines", "items(self._content)"],
 )
@@ -281,7 +287,10 @@ c = R.contract(
     params={"lines": "int?"},
     requires=[VALID],
     ensures=["implies(self._quiet, %s)" % UNCHANGED, "self._stream.g_count >= old(self._stream.g_count)",
-             "self._content is old(self._content) or fresh(self._content)"],
+             "self._content is old(self._content) or fresh(self._content)",
+             # C15: without ANSI support a clear emits nothing (no control codes) and forgets nothing
+             "[C15] implies(not %s, %s and self._lines == old(self._lines) and self._content is old(self._content) "
+             "and seq(self._content) == old(seq(self._content)))" % (ANSI, UNCHANGED)],
     modifies=STREAM_GHOST + ["self._lines", "self._content", "items(self._content)"],
 )
 c.defaults = {"lines": None}
@@ -401,6 +410,8 @@ c.assumed = False
 c.requires = ["[C15] " + SEC, "[C15] self._terminal.g_width >= 1"]
 c.ensures = ["[C15] " + SEC, "[C15] len(self._content) >= old(len(self._content))"]
 c.note = ""
+# a section write in ANSI mode calls add_content: the accounting invariant is a precondition of every public operation
+R.contracts[M_SEC + ":SectionOutput.write"].requires += ["[C15] " + SEC, "[C15] self._terminal.g_width >= 1"]
 R.loop(
     SEC_ADD, 0,
     invariants=[SEC, "len(self._content) >= old(len(self._content))"],
